@@ -56,7 +56,7 @@ pub fn run_check(context: &CheckContext) -> CheckOutcome {
     if !outcome.violations.is_empty() { return outcome; }
     if context.property == "C14" { return run_c14(context, outcome); }
     if context.property == "C12" { return run_c12(context, outcome); }
-    if matches!(context.property.as_str(), "C15" | "C18") { return run_conc_check(context, outcome); }
+    if matches!(context.property.as_str(), "C18") { return run_conc_check(context, outcome); }
     let campaigns = seq_campaigns(&context.property);
     if !campaigns.is_empty() { outcome.assumptions.extend(seq_assumptions()); }
     for campaign in campaigns {
@@ -78,7 +78,7 @@ pub fn run_check(context: &CheckContext) -> CheckOutcome {
         outcome.reports.push(report);
         if let Some(violation) = violation { outcome.violations.push(violation); }
     }
-    if outcome.violations.is_empty() && matches!(context.property.as_str(), "C01" | "C02" | "C03" | "C04" | "C05" | "C07" | "C09" | "C10" | "C11" | "C13" | "C16" | "C17") { return run_conc_check(context, outcome); }
+    if outcome.violations.is_empty() && matches!(context.property.as_str(), "C01" | "C02" | "C03" | "C04" | "C05" | "C07" | "C09" | "C10" | "C11" | "C13" | "C15" | "C16" | "C17") { return run_conc_check(context, outcome); }
     outcome
 }
 
